@@ -24,7 +24,7 @@ RULE = (
 ASSUMPTIONS = ["kernel, mean and noise are read from the model's gpytorch modules; data from the monitor's shadow",
                "agreement demanded to 1e-6 relative (prototype: <=1e-12 on correct code)",
                "training is replaced by a no-op in the quick tier for the factory helpers (hyper-parameters are whatever the modules hold)"]
-N = {"quick": 64, "thorough": 2400}
+N = {"quick": 64, "thorough": 9600}
 REQUIRE = {"quick": {"predict_events": 600, "predict_N1": 60, "empty_prior_events": 15, "stale_predicts": 30,
                      "invariance_events": 60, "locality_events": 30, "monotone_events": 60, "hyper_events": 60,
                      "factory_events": 40, "factory_zero_initial": 10, "matrix_noise_models": 10,
